@@ -22,6 +22,13 @@ _ORIG = (threading.Lock, threading.RLock)
 
 ACTIVE = None          # the Scheduler of the run in progress (set by the executor), else None
 TASK_OF_THREAD = {}    # thread ident -> task id, for the run in progress
+HELD = {}              # task id -> number of cooperative locks currently held (abort faults wait)
+
+
+def _note(delta):
+    tid = TASK_OF_THREAD.get(_thread.get_ident())
+    if tid is not None:
+        HELD[tid] = HELD.get(tid, 0) + delta
 
 
 class DeadlockDetected(Exception):
@@ -49,14 +56,17 @@ class SimLock(object):
 
     def acquire(self, blocking=True, timeout=-1):
         r = _coop_acquire(self._real, blocking, timeout)
-        if r is not None:
-            return r
-        return self._real.acquire(blocking, timeout)
+        if r is None:
+            r = self._real.acquire(blocking, timeout)
+        if r and ACTIVE is not None:
+            _note(+1)
+        return r
 
     def release(self):
         self._real.release()
         sched = ACTIVE
         if sched is not None:
+            _note(-1)
             sched.note_unblock()
 
     __enter__ = acquire
@@ -80,14 +90,17 @@ class SimRLock(object):
 
     def acquire(self, blocking=True, timeout=-1):
         r = _coop_acquire(self._real, blocking, timeout)
-        if r is not None:
-            return r
-        return self._real.acquire(blocking, timeout)
+        if r is None:
+            r = self._real.acquire(blocking, timeout)
+        if r and ACTIVE is not None:
+            _note(+1)
+        return r
 
     def release(self):
         self._real.release()
         sched = ACTIVE
         if sched is not None:
+            _note(-1)
             sched.note_unblock()
 
     __enter__ = acquire
